@@ -363,7 +363,8 @@ def rule_E1(ctx, R):
                     why = "locks are collected into something other than the caller's vector"
                 elif pushes == ("op:a1",) and not gp and not ext:
                     cls = "leaf"
-                elif len(gp) == 1 and not pushes and not ext and (gp[0][0] == "a1.*" or gp[0][0].startswith("a1.*.")):
+                elif len(gp) == 1 and not pushes and not ext and st["k"] != "tuple" and \
+                        (gp[0][0] == "a1.*" or gp[0][0].startswith("a1.*.")):
                     cls = "delegate(%s)" % gp[0][0]
                 elif st["k"] == "tuple" and not pushes and not ext:
                     want = tuple("a1.*.%d" % i for i in range(len(st["elems"])))
